@@ -371,29 +371,85 @@ def rule_r5(ctx, marker: str) -> RuleResult:
         rr.ok("_lua_set_timeout", "hook raises {!r}".format(marker))
     else:
         rr.bad(Finding("C07.R5", P1, "_lua_set_timeout", "error(<marker>)", "the hook does not raise the timeout marker", hook.line))
-    # the limit: assigned `timeout` only under a test bounding it by _lua_max_time, else _lua_max_time
+    # the limit: every value that can be stored in _lua_current_max_time is the maximum itself, or the caller's value on a
+    # path / in an and-or arm whose condition bounds it by the maximum
+    params = set(st.params) if hasattr(st, "params") else {"timeout"}
+
+    def conj(e) -> list:
+        while e.kind == "paren":
+            e = e.expr
+        if e.kind == "binop" and e.op == "and":
+            return conj(e.left) + conj(e.right)
+        return [e]
+
+    def bounds(c, name: str) -> bool:
+        while c.kind == "paren":
+            c = c.expr
+        if c.kind != "binop":
+            return False
+        l, r = L.text(c.left), L.text(c.right)
+        return (c.op in ("<", "<=") and l == name and r == "_lua_max_time") or (c.op in (">", ">=") and r == name and l == "_lua_max_time")
+
+    def results(e, guards: list) -> list:
+        """[(value expr, guards)] of the and/or expression e"""
+        while e.kind == "paren":
+            e = e.expr
+        if e.kind == "binop" and e.op == "or":
+            return results(e.left, guards) + results(e.right, guards)
+        if e.kind == "binop" and e.op == "and":
+            return results(e.right, guards + conj(e.left))
+        return [(e, guards)]
+
+    def path_guards(target) -> list:
+        out = []
+
+        def rec(stmts, gs) -> bool:
+            for x in stmts:
+                if x is target:
+                    out.extend(gs)
+                    return True
+                if x.kind == "if":
+                    for i, (cnd, body) in enumerate(x.clauses):
+                        if rec(body, gs + (conj(cnd) if i == 0 else [])):  # an elseif arm also carries negations: not used
+                            return True
+                    if x.orelse is not None and rec(x.orelse, gs):
+                        return True
+                elif x.kind in ("do", "while", "repeat", "fornum", "forin") and rec(getattr(x, "body", []), gs):
+                    return True
+            return False
+        rec(st.body, [])
+        return out
+
     assigns = [n for n in L.walk(st) if n.kind == "assign" and any(L.text(t) == "_lua_current_max_time" for t in n.targets)]
-    ok = bool(assigns)
+    unbounded, unknown = [], []
     for a in assigns:
-        v = L.text(a.exprs[0])
-        if v == "_lua_max_time":
+        if len(a.exprs) != len(a.targets):
+            unknown.append(L.text(a))
             continue
-        if v == "timeout":
-            guard = None
-            for n in L.walk(st):
-                if n.kind == "if":
-                    for cnd, body in n.clauses:
-                        if any(x is a for b in body for x in L.walk(b)):
-                            guard = cnd
-            if guard is None or "timeout < _lua_max_time" not in L.text(guard):
-                ok = False
-        else:
-            ok = False
-    if ok and _definitely_assigns(st.body, "_lua_current_max_time"):
-        rr.ok("_lua_set_timeout", "limit = caller's value only when below the maximum, else the maximum")
-    else:
+        e = a.exprs[[L.text(t) for t in a.targets].index("_lua_current_max_time")]
+        for val, gs in results(e, path_guards(a)):
+            v = L.text(val)
+            if v == "_lua_max_time":
+                continue
+            if val.kind == "name" and val.id in params:
+                if not any(bounds(g, val.id) for g in gs):
+                    unbounded.append((a, v))
+                continue
+            if val.kind == "call" and L.text(val.func) == "math.min" and any(L.text(x) == "_lua_max_time" for x in val.args):
+                continue
+            unknown.append(v)
+    if unbounded:
         rr.bad(Finding("C07.R5", P1, "_lua_set_timeout", "_lua_current_max_time = ...",
-                       "the limit can be set above the maximum by the caller, or is not set on every path", st.line))
+                       "the limit can be set above the maximum by the caller (`{}` is stored without a test bounding it by "
+                       "_lua_max_time)".format(unbounded[0][1]), unbounded[0][0].line))
+    elif not assigns or not _definitely_assigns(st.body, "_lua_current_max_time"):
+        rr.bad(Finding("C07.R5", P1, "_lua_set_timeout", "_lua_current_max_time = ...",
+                       "the limit is not set on every path through _lua_set_timeout: an invocation runs against the previous one's limit", st.line))
+    elif unknown:
+        raise AnalysisError("_lua_set_timeout: value `{}` stored in _lua_current_max_time is not a recognised shape (the maximum, a bounded "
+                            "parameter, math.min(.., _lua_max_time))".format(unknown[0][:60]))
+    else:
+        rr.ok("_lua_set_timeout", "limit = caller's value only when below the maximum, else the maximum")
     return rr
 
 
